@@ -2,10 +2,12 @@
 From Sq Require Import Base.Corr Sched.Model Sched.PureModel Sched.VerdictModel.
 
 (** group [sched]: one [lint_paths] call.
-    args = (expansion of each argument (file ids), ignored file ids, reference results (file id, result id)
-            from [lint_string] on a fresh linter, observed completion order)
-    expected = the observed directories, each a list of (file id, result id) in stored order. *)
-Definition sched_args : Type := (list (list N) * list N * list (N * N) * list N)%type.
+    args = (expansion of each argument as spelling ids (the paths [paths_from_path] / the file argument
+            yield, in order), identity of each spelling (spelling id, file id: the canonical path),
+            ignored file ids, reference results (file id, result id) from [lint_string] on a fresh linter,
+            observed completion order (spelling ids))
+    expected = the observed directories, each a list of (spelling id, result id) in stored order. *)
+Definition sched_args : Type := (list (list N) * list (N * N) * list N * list (N * N) * list N)%type.
 Fixpoint lookupN (tab : list (N * N)) (p : N) : N :=
   match tab with
   | [] => 4000000000
@@ -17,13 +19,16 @@ Fixpoint count_occN (l : list N) (p : N) : N :=
 Definition permb (a b : list N) : bool :=
   (N.of_nat (length a) =? N.of_nat (length b))
   && forallb (fun p => count_occN a p =? count_occN b p) (a ++ b).
+(** spellings the harness could not identify keep their own (large) number as identity *)
+Definition ident_of (idents : list (N * N)) (p : N) : N :=
+  if existsb (fun kv => fst kv =? p) idents then lookupN idents p else 1000000 + p.
 Definition model_sched (a : sched_args) : option (list (list (N * N))) :=
-  let '(exps, ign, tab, order) := a in
-  collect N (lookupN tab) exps order.
+  let '(exps, idents, ign, tab, order) := a in
+  lint_paths N (fun p => lookupN tab (ident_of idents p)) (ident_of idents) exps order.
 Definition entry_eqb (a b : N * N) : bool := (fst a =? fst b) && (snd a =? snd b).
 Definition check_sched (a : sched_args) (exp : list (list (N * N))) : bool :=
-  let '(exps, ign, tab, order) := a in
-  permb order (selected (fun p => memN p ign) exps)
+  let '(exps, idents, ign, tab, order) := a in
+  permb order (selected (fun p => memN (ident_of idents p) ign) (kept (ident_of idents) exps))
   && opt_eqb (list_eqb (list_eqb entry_eqb)) (model_sched a) (Some exp).
 Definition case_t_sched : Type := (N * sched_args * list (list (N * N)))%type.
 
